@@ -80,7 +80,13 @@ class StmtMixin:
                 self.list_append(cur, x)
             return cur
         if isinstance(cur, VRef) and cur.kind == "set" and isinstance(op, ast.BitOr):
-            for x in self.iterate_concrete(val):
+            try:
+                items = self.iterate_concrete(val)
+            except E.Unsupported:
+                return self.binop(op, cur, val)       # symbolic union: a new set value (rebinding is equivalent for a local)
+            if not self.run.rec(cur.oid).concrete:
+                return self.binop(op, cur, self.new_set(items))
+            for x in items:
                 self.set_add(cur, x)
             return cur
         return self.binop(op, cur, val)
